@@ -1153,9 +1153,13 @@ class DipStoreMachine(Machine):
         stmts = gen.stmts
         chunks = []
         cur = []
-        for st in stmts:
+        lead = 0
+        while lead < len(stmts) and stmts[lead]["k"] in ("unit", "source"):
+            lead += 1
+        for n, st in enumerate(stmts):
             cur.append(st)
-            if rng.random() < cfg["p_chunk_split"] * 0.3 and len(chunks) < 2:
+            if (n + 1 == lead and rng.random() < 0.5 and len(chunks) < 2) or \
+                    (rng.random() < cfg["p_chunk_split"] * 0.3 and len(chunks) < 2):
                 chunks.append(cur)
                 cur = []
         if cur or not chunks:
@@ -1163,6 +1167,10 @@ class DipStoreMachine(Machine):
         out = []
         file_ops = []
         for j, c in enumerate(chunks):
+            if c and all(st["k"] in ("unit", "source") for st in c) and rng.random() < 0.5:
+                # the same definitions through the Python API: add_unit() / add_source()
+                out.append({"via": "api", "stmts": c})
+                continue
             if cfg["files"] and rng.random() < 0.3 and c:
                 path = f"{ROOT}main_{self.nround + 1}_{j}.dip"
                 file_ops.append({"op": "write_file", "path": path, "kind": "dip", "stmts": c})
@@ -1357,6 +1365,13 @@ class DipStoreMachine(Machine):
             for c, stmts in chunks:
                 if c["via"] == "file":
                     p.add_file(c["path"])
+                elif c["via"] == "api":
+                    for st in stmts:
+                        if st["k"] == "unit":
+                            p.add_unit(st["name"], st["value"], st.get("unit"))
+                        elif st["k"] == "source":
+                            p.add_source(st["name"], st["path"])
+                    self.stats.probe("definitions_through_python_api")
                 else:
                     p.add_string("\n".join(DM.render(st) for st in stmts))
             env = p.parse()
@@ -1551,7 +1566,7 @@ class DipStoreMachine(Machine):
         if op.get("op") == "round":
             ch = op["chunks"]
             # merge chunks
-            if len(ch) > 1 and all(c["via"] == "string" for c in ch):
+            if len(ch) > 1 and all(c["via"] in ("string", "api") for c in ch):
                 yield dict(op, chunks=[{"via": "string",
                                         "stmts": [s for c in ch for s in c["stmts"]]}])
             if op.get("io_fault"):
